@@ -602,12 +602,19 @@ pub fn judge(cfg: &Config, e: &EventSpec, obs: &Observation, cx: &mut Cx) -> Res
         cx.class(if route == exp.allowed[0] { "dont-care:took-kind-route" } else { "dont-care:took-fallback" });
     }
     if !exp.allowed.contains(&route) {
+        let configured = match route {
+            Route::Metrics => cfg.metrics.is_some(),
+            Route::Traces => cfg.traces.is_some(),
+            Route::Logs => cfg.logs.is_some(),
+            Route::Dropped => true,
+        };
         let sig = match (exp.allowed[0], route) {
             (_, Route::Dropped) => "event-lost-although-a-signal-can-take-it",
-            (Route::Dropped, _) => "exported-through-unconfigured-signal",
+            _ if !configured => "exported-through-unconfigured-signal",
             (Route::Metrics, _) => "metric-sample-not-exported-as-metric",
             (Route::Traces, _) => "span-not-exported-as-span",
-            (Route::Logs, _) => "fallback-event-not-exported-as-log",
+            // the fallback (logs, or dropped when logs is not configured) was expected
+            (_, _) => "exported-through-signal-that-contradicts-its-kind",
         };
         cx.fail(sig, format!("{cfg:?} {e:?}: expected one of {:?}, observed {route:?} (found {:?})", exp.allowed, obs.found))?;
     }
